@@ -1,11 +1,11 @@
 /-
-  Proofs/C09Hsm.lean — property C09, hierarchical classes on flat configurations: with a script that
-  issues no re-entrant commands the model is still in `transition.source` when `_change_state` starts,
-  so the depth-1 collapse of `NestedTransition._change_state` (`Model/HsmFlat.lean`) and
-  `Transition._change_state` (`Model/Core.lean`) coincide, and with them the whole engines.
+  Proofs/C09Hsm.lean — property C09, hierarchical classes on flat configurations: the depth-1 collapse
+  of `NestedTransition._change_state` (`Model/HsmFlat.lean`) and `Transition._change_state`
+  (`Model/Core.lean`, as repaired in /repo ba1cc46: both exit the state the model is in) differ only in
+  WHEN the destination is resolved; with registered destinations they coincide, and with them the
+  whole engines — for every script, re-entrant calls included.
 -/
 import Model.HsmFlat
-import Proofs.C04
 
 namespace TM
 namespace HsmFlat
@@ -45,117 +45,40 @@ theorem bind_congr_ok {α β : Type} {r : R α} {f g : α → St → R β}
   | err e s' => rfl
   | oof => rfl
 
-theorem bind_eq_ok {α β : Type} {r : R α} {f : α → St → R β} {b : β} {s' : St} (h : r.bind f = .ok b s') :
-    ∃ a s1, r = .ok a s1 ∧ f a s1 = .ok b s' := by
-  cases r with
-  | ok a s1 => exact ⟨a, s1, rfl, h⟩
-  | err e s1 => cases h
-  | oof => cases h
-
 variable (sub : Sub) (sc : Script) (cfg : Cfg)
 
-theorem callbacks_ok_frame (hC : NoCmds sc) (slot : Slot) (x : Ctx) (cbs : List Nat) (s s' : St) (u : Unit)
-    (h : callbacks sub sc slot x cbs s = .ok u s') : Frame s s' := by
-  obtain ⟨o, s1, seg, hr, hf, _⟩ := callbacks_any sub sc hC slot x cbs s
-  rw [hr] at h
-  cases o with
-  | ok a => simp [toRes] at h; rw [← h]; exact hf
-  | fail e st => simp [toRes] at h
-
-theorem evalConds_ok_frame (hC : NoCmds sc) (x : Ctx) (cs : List Cond) (s s' : St) (b : Bool)
-    (h : evalConds sub sc x cs s = .ok b s') : Frame s s' := by
-  obtain ⟨o, s1, seg, hr, hf, _⟩ := evalConds_any sub sc hC x cs s
-  rw [hr] at h
-  cases o with
-  | ok a => simp [toRes] at h; rw [← h.2]; exact hf
-  | fail e st => simp [toRes] at h
-
-/-- the one function that differs: equal when the model is in the transition's source and the
-destination is registered -/
-theorem changeState_eq (x : Ctx) (t : Trans) (dst : Nat) (s : St)
-    (hs : s.stateOf x.model = t.source) (hd : (cfg.state? dst).isSome) :
+/-- the one function that differs: equal when the destination is registered -/
+theorem changeState_eq (x : Ctx) (t : Trans) (dst : Nat) (s : St) (hd : (cfg.state? dst).isSome) :
     changeState sub sc cfg x dst s = TM.changeState sub sc cfg x t dst s := by
   unfold changeState TM.changeState
-  rw [hs]
   cases h1 : cfg.state? dst with
   | none => rw [h1] at hd; cases hd
   | some d =>
-    cases h2 : cfg.state? t.source with
+    cases h2 : cfg.state? (s.stateOf x.model) with
     | none => rfl
     | some src => rfl
 
-theorem execute_eq (hC : NoCmds sc) (x : Ctx) (t : Trans) (s : St)
-    (hs : s.stateOf x.model = t.source) (hd : ∀ d, t.dest = some d → (cfg.state? d).isSome) :
+theorem execute_eq (x : Ctx) (t : Trans) (s : St) (hd : ∀ d, t.dest = some d → (cfg.state? d).isSome) :
     execute sub sc cfg x t s = TM.execute sub sc cfg x t s := by
   unfold execute TM.execute
-  apply bind_congr_ok; intro _ s1 h1
-  have f1 := callbacks_ok_frame sub sc hC _ x _ s s1 _ h1
-  apply bind_congr_ok; intro ok s2 h2
-  have f2 := evalConds_ok_frame sub sc hC x _ s1 s2 _ h2
-  cases ok with
-  | false => rfl
-  | true =>
-    simp only [Bool.not_true, Bool.false_eq_true, if_false]
-    apply bind_congr_ok; intro _ s3 h3
-    have f3 := callbacks_ok_frame sub sc hC _ x _ s2 s3 _ h3
-    apply bind_congr_ok; intro _ s4 h4
-    have f4 := callbacks_ok_frame sub sc hC _ x _ s3 s4 _ h4
-    have hst : s4.stateOf x.model = t.source := by
-      rw [(f1.trans (f2.trans (f3.trans f4))).stateOf]; exact hs
-    cases hdest : t.dest with
-    | none => rfl
-    | some d => simp only [changeState_eq sub sc cfg x t d s4 hst (hd d hdest)]
+  cases hdest : t.dest with
+  | none => rfl
+  | some d => simp only [changeState_eq sub sc cfg x t d _ (hd d hdest)]
 
-/-- a candidate that does not execute leaves the model where it was -/
-theorem execute_false_frame (hC : NoCmds sc) (x : Ctx) (t : Trans) (s s' : St)
-    (h : TM.execute sub sc cfg x t s = .ok false s') : s'.stateOf x.model = s.stateOf x.model := by
-  unfold TM.execute at h
-  cases h1 : callbacks sub sc .prepare x t.prepare s with
-  | err e s1 => rw [h1] at h; cases h
-  | oof => rw [h1] at h; cases h
-  | ok u s1 =>
-    have f1 := callbacks_ok_frame sub sc hC _ x _ s s1 _ h1
-    rw [h1] at h
-    simp only [Res.bind] at h
-    cases h2 : evalConds sub sc x t.conds s1 with
-    | err e s2 => rw [h2] at h; cases h
-    | oof => rw [h2] at h; cases h
-    | ok b s2 =>
-      have f2 := evalConds_ok_frame sub sc hC x _ s1 s2 _ h2
-      rw [h2] at h
-      cases b with
-      | false =>
-        simp only [Bool.not_false, if_true] at h
-        cases h
-        exact (f1.trans f2).stateOf _
-      | true =>
-        exfalso
-        simp only [Bool.not_true, Bool.false_eq_true, if_false] at h
-        -- every path through the remaining stages ends in `ok true`, an exception or out-of-fuel
-        obtain ⟨_, s3, _, h⟩ := bind_eq_ok h
-        obtain ⟨_, s4, _, h⟩ := bind_eq_ok h
-        obtain ⟨_, s5, _, h⟩ := bind_eq_ok h
-        obtain ⟨_, s6, _, h⟩ := bind_eq_ok h
-        obtain ⟨_, s7, _, h⟩ := bind_eq_ok h
-        cases h
-
-theorem tryTransitions_eq (hC : NoCmds sc) (x : Ctx) (ts : List Trans) (s : St)
-    (hs : ∀ t ∈ ts, t.source = s.stateOf x.model ∧ ∀ d, t.dest = some d → (cfg.state? d).isSome) :
+theorem tryTransitions_eq (x : Ctx) (ts : List Trans) (s : St)
+    (hs : ∀ t ∈ ts, ∀ d, t.dest = some d → (cfg.state? d).isSome) :
     tryTransitions sub sc cfg x ts s = TM.tryTransitions sub sc cfg x ts s := by
   induction ts generalizing s with
   | nil => rfl
   | cons t ts ih =>
     unfold tryTransitions TM.tryTransitions
-    rw [execute_eq sub sc cfg hC x t s (hs t (by simp)).1.symm (hs t (by simp)).2]
-    apply bind_congr_ok; intro ok s' h
+    rw [execute_eq sub sc cfg x t s (hs t (by simp))]
+    apply bind_congr_ok; intro ok s' _
     cases ok with
     | true => rfl
     | false =>
       simp only [Bool.false_eq_true, if_false]
-      apply ih
-      intro t' ht'
-      rw [execute_false_frame sub sc cfg hC x t s s' h]
-      exact hs t' (by simp [ht'])
+      exact ih s' (fun t' ht' => hs t' (by simp [ht']))
 
 theorem alookup_mem {β : Type} (k : Nat) (v : β) : ∀ l : List (Nat × β), alookup k l = some v → (k, v) ∈ l := by
   intro l
@@ -177,7 +100,16 @@ theorem fromCfg_event (ev : Nat) : FromCfg cfg ((cfg.event? ev).getD []) := by
   | none => exact Or.inl rfl
   | some ts => exact Or.inr ⟨(ev, ts), alookup_mem ev ts _ h, rfl⟩
 
-theorem eventTrigger_eq (hC : NoCmds sc) (hD : DestsRegistered cfg) (ts : List Trans) (hts : FromCfg cfg ts)
+theorem candidates_mem {ts : List Trans} {src : Nat} {cs : List Trans} (h : candidates ts src = some cs) :
+    ∀ t ∈ cs, t ∈ ts := by
+  unfold candidates at h
+  split at h
+  · cases h
+  · cases h
+    intro t ht
+    exact (List.mem_filter.mp ht).1
+
+theorem eventTrigger_eq (hD : DestsRegistered cfg) (ts : List Trans) (hts : FromCfg cfg ts)
     (x : Ctx) (s : St) :
     eventTrigger sub sc cfg ts x s = TM.eventTrigger sub sc cfg ts x s := by
   unfold eventTrigger TM.eventTrigger
@@ -192,18 +124,15 @@ theorem eventTrigger_eq (hC : NoCmds sc) (hD : DestsRegistered cfg) (ts : List T
       simp only []
       congr 1
       unfold eventProcess TM.eventProcess
-      apply bind_congr_ok; intro _ s1 h1
-      have f1 := callbacks_ok_frame sub sc hC _ x _ s s1 _ h1
-      apply tryTransitions_eq sub sc cfg hC x cs s1
-      intro t ht
-      obtain ⟨hsrc, hmem⟩ := candidates_spec hc t ht
-      refine ⟨by rw [f1.stateOf]; exact hsrc, ?_⟩
+      apply bind_congr_ok; intro _ s1 _
+      apply tryTransitions_eq sub sc cfg x cs s1
+      intro t ht d hd
+      have hmem := candidates_mem hc t ht
       rcases hts with h0 | ⟨e, he, h0⟩
       · rw [h0] at hmem; cases hmem
-      · intro d hd
-        exact hD e he t (h0 ▸ hmem) d hd
+      · exact hD e he t (h0 ▸ hmem) d hd
 
-theorem drain_eq (hC : NoCmds sc) (hD : DestsRegistered cfg) (n : Nat) (s : St) :
+theorem drain_eq (hD : DestsRegistered cfg) (n : Nat) (s : St) :
     drain sub sc cfg n s = TM.drain sub sc cfg n s := by
   induction n generalizing s with
   | zero => rfl
@@ -214,31 +143,31 @@ theorem drain_eq (hC : NoCmds sc) (hD : DestsRegistered cfg) (n : Nat) (s : St) 
     | cons e rest =>
       obtain ⟨m, ev, tag⟩ := e
       simp only []
-      rw [eventTrigger_eq sub sc cfg hC hD _ (fromCfg_event cfg ev)]
+      rw [eventTrigger_eq sub sc cfg hD _ (fromCfg_event cfg ev)]
       cases TM.eventTrigger sub sc cfg ((cfg.event? ev).getD []) ⟨m, tag⟩ s with
       | ok b s' => exact ih _
       | err e s' => rfl
       | oof => rfl
 
-theorem machineProcess_eq (hC : NoCmds sc) (hD : DestsRegistered cfg) (fuelQ m ev tag : Nat) (s : St) :
+theorem machineProcess_eq (hD : DestsRegistered cfg) (fuelQ m ev tag : Nat) (s : St) :
     machineProcess sub sc cfg fuelQ m ev tag s = TM.machineProcess sub sc cfg fuelQ m ev tag s := by
   unfold machineProcess TM.machineProcess
-  simp only [eventTrigger_eq sub sc cfg hC hD _ (fromCfg_event cfg ev), drain_eq sub sc cfg hC hD]
+  simp only [eventTrigger_eq sub sc cfg hD _ (fromCfg_event cfg ev), drain_eq sub sc cfg hD]
   try rfl
 
-theorem triggerByName_eq (hC : NoCmds sc) (hD : DestsRegistered cfg) (fuelQ m ev tag : Nat) (s : St) :
+theorem triggerByName_eq (hD : DestsRegistered cfg) (fuelQ m ev tag : Nat) (s : St) :
     triggerByName sub sc cfg fuelQ m ev tag s = TM.triggerByName sub sc cfg fuelQ m ev tag s := by
   unfold triggerByName TM.triggerByName
-  simp only [machineProcess_eq sub sc cfg hC hD]
+  simp only [machineProcess_eq sub sc cfg hD]
   try rfl
 
-theorem apiTrigger_eq (hC : NoCmds sc) (hD : DestsRegistered cfg) (qmax m ev : Nat) (s : St) :
+theorem apiTrigger_eq (hD : DestsRegistered cfg) (qmax m ev : Nat) (s : St) :
     apiTrigger sub sc cfg qmax m ev s = TM.apiTrigger sub sc cfg qmax m ev s := by
   unfold apiTrigger TM.apiTrigger
-  simp only [triggerByName_eq sub sc cfg hC hD]
+  simp only [triggerByName_eq sub sc cfg hD]
   try rfl
 
-theorem dispatchLoop_eq (hC : NoCmds sc) (hD : DestsRegistered cfg) (qmax ev tag n i : Nat) (acc : Bool) (s : St) :
+theorem dispatchLoop_eq (hD : DestsRegistered cfg) (qmax ev tag n i : Nat) (acc : Bool) (s : St) :
     dispatchLoop sub sc cfg qmax ev tag n i acc s = TM.dispatchLoop sub sc cfg qmax ev tag n i acc s := by
   induction n generalizing i acc s with
   | zero => rfl
@@ -247,17 +176,17 @@ theorem dispatchLoop_eq (hC : NoCmds sc) (hD : DestsRegistered cfg) (qmax ev tag
     cases s.models[i]? with
     | none => rfl
     | some m =>
-      simp only [triggerByName_eq sub sc cfg hC hD]
+      simp only [triggerByName_eq sub sc cfg hD]
       apply bind_congr_ok; intro b s' _
       exact ih _ _ _
 
-theorem apiDispatch_eq (hC : NoCmds sc) (hD : DestsRegistered cfg) (qmax ev : Nat) (s : St) :
+theorem apiDispatch_eq (hD : DestsRegistered cfg) (qmax ev : Nat) (s : St) :
     apiDispatch sub sc cfg qmax ev s = TM.apiDispatch sub sc cfg qmax ev s := by
   unfold apiDispatch TM.apiDispatch
-  simp only [dispatchLoop_eq sub sc cfg hC hD]
+  simp only [dispatchLoop_eq sub sc cfg hD]
   try rfl
 
-theorem runCmd_eq (hC : NoCmds sc) (hD : DestsRegistered cfg) (qmax fuel : Nat) :
+theorem runCmd_eq (hD : DestsRegistered cfg) (qmax fuel : Nat) :
     runCmd sc cfg qmax fuel = TM.runCmd sc cfg qmax fuel := by
   induction fuel with
   | zero => funext c s; rfl
@@ -266,19 +195,19 @@ theorem runCmd_eq (hC : NoCmds sc) (hD : DestsRegistered cfg) (qmax fuel : Nat) 
     unfold runCmd TM.runCmd
     simp only [ih]
     cases c with
-    | trigger m ev => simp only [apiTrigger_eq _ sc cfg hC hD]
+    | trigger m ev => simp only [apiTrigger_eq _ sc cfg hD]
     | may m ev => rfl
-    | dispatch ev => simp only [apiDispatch_eq _ sc cfg hC hD]
+    | dispatch ev => simp only [apiDispatch_eq _ sc cfg hD]
     | removeModel m => rfl
     | addModel m => rfl
 
-theorem runHistory_eq (hC : NoCmds sc) (hD : DestsRegistered cfg) (qmax fuel : Nat) (h : List Cmd) (s : St) :
+theorem runHistory_eq (hD : DestsRegistered cfg) (qmax fuel : Nat) (h : List Cmd) (s : St) :
     runHistory sc cfg qmax fuel h s = TM.runHistory sc cfg qmax fuel h s := by
   induction h generalizing s with
   | nil => rfl
   | cons c cs ih =>
     unfold runHistory TM.runHistory
-    rw [runCmd_eq sc cfg hC hD]
+    rw [runCmd_eq sc cfg hD]
     cases TM.runCmd sc cfg qmax fuel c s with
     | ok u s' => exact ih s'
     | err e s' => exact ih s'
